@@ -445,6 +445,22 @@ pub fn run(ctx: &Ctx, rep: &mut Report) {
                 }
             }
         }
+        for &eng in &engines_fast() {
+            for n in [11u32, 12] {
+                let size = 1usize << n;
+                let mut pts: Vec<usize> = (0..64).map(|i| (i * 2654435761usize) % size).collect();
+                pts.extend([0, 1, 2, 3, size - 2, size - 1, size / 2 - 1, size / 2, size / 2 + 1]);
+                pts.sort();
+                pts.dedup();
+                let truncs: Vec<usize> = (0..=size).collect();
+                for delta in [0usize, size, 65536 - size] {
+                    for chunk in truncs.chunks(64) {
+                        cases.push(Kv::new().with("what", "transform").with("eng", eng).with("n", n).with("delta", delta).with("len64", 1).with("truncs", fmt_ranges(chunk)).with("points", fmt_list(&pts)).with("seed", seed));
+                    }
+                }
+            }
+        }
+        rep.bound("transform_n11_12", J::s("n = 11, 12 on nosimd/avx2: every truncated_size at skew offsets {0, size, 65536-size}, reference on 73 fixed output points"));
         rep.bound("transform_large", J::s("n = 12 and 16 at skew offset 0, 11 truncated sizes, reference on 64 / 24 fixed output points plus the ends"));
     }
     // eval_poly
